@@ -41,20 +41,25 @@ ZeroTok(col) == IF col \in {"parent_id", "other_id"} THEN NullTok ELSE IF col \i
 PayVal(pay, col) == IF \E i \in DOMAIN pay : pay[i].col = col
                     THEN pay[CHOOSE i \in DOMAIN pay : pay[i].col = col].v ELSE ZeroTok(col)
 RowPairs(pay) == [i \in DOMAIN AllCols |-> P(AllCols[i], PayVal(pay, AllCols[i]))]
+\* a record of the soft-delete model also inserts its (NULL) deleted_at
+SoftRow(prog) == IF prog.soft THEN <<P("deleted_at", NullTok)>> ELSE <<>>
 PayPairs(pay) == [i \in DOMAIN pay |-> P(pay[i].col, pay[i].v)]
 
 \* target: "q" / "d" dummy dialects with the default clause builders, "real" SQLite
-FinPairs(fin, target) ==
+FinPairs(prog, target) ==
+  LET fin == prog.fin IN
   CASE fin.kind \in {"update", "updates", "updates_map", "update_returning"} -> PayPairs(fin.pay)
-    [] fin.kind = "create" -> RowPairs(fin.pay)
-    [] fin.kind = "create_slice" -> RowPairs(fin.pay) \o RowPairs(fin.pay2)
+    [] fin.kind = "create" -> RowPairs(fin.pay) \o SoftRow(prog)
+    [] fin.kind = "create_slice" -> RowPairs(fin.pay) \o SoftRow(prog) \o RowPairs(fin.pay2) \o SoftRow(prog)
     [] fin.kind = "create_map" -> PayPairs(fin.pay)
-    [] fin.kind = "upsert" -> <<P("id", "i:1")>> \o RowPairs(fin.pay) \o PayPairs(fin.pay2)
+    [] fin.kind = "upsert" -> <<P("id", "i:1")>> \o RowPairs(fin.pay) \o SoftRow(prog) \o PayPairs(fin.pay2)
     [] fin.kind = "first" /\ target # "real" -> <<P("", "i:1")>>     \* default LIMIT builder binds the limit
+    \* deleting from a soft-delete model is an UPDATE that binds the deletion time
+    [] fin.kind \in {"delete", "delete_returning"} /\ prog.soft -> <<P("deleted_at", prog.now)>>
     [] OTHER -> <<>>
 Pairs(prog, target) ==
-  IF prog.fin.kind \in {"create", "create_slice", "create_map", "upsert"} THEN FinPairs(prog.fin, target)
-  ELSE PartsPairs(prog.parts) \o FinPairs(prog.fin, target)
+  IF prog.fin.kind \in {"create", "create_slice", "create_map", "upsert"} THEN FinPairs(prog, target)
+  ELSE PartsPairs(prog.parts) \o FinPairs(prog, target)
 
 BagOf(seq) == [x \in {seq[i] : i \in DOMAIN seq} |-> Cardinality({i \in DOMAIN seq : seq[i] = x})]
 
